@@ -53,6 +53,7 @@ def import_pvl():
     for name in ("dateutil", "astropy", "pint"):
         if name not in sys.modules and importlib.util.find_spec(name) is None:
             sys.modules[name] = None
+    _start_reach_recorder()
     import pvl  # noqa
 
     here = os.path.abspath(pvl.__file__)
@@ -61,6 +62,47 @@ def import_pvl():
             f"INCONCLUSIVE: pvl imported from {here}, not from {REPO}"
         )
     return pvl
+
+
+_REACH = None
+
+
+def _start_reach_recorder():
+    """With VERIF_COVER=<dir> every worker records which lines of pvl/*.py its
+    workload executed (sys.monitoring LINE events, each location switched off
+    after its first hit) and writes them to <dir>/<pid>.json at exit.  Used by
+    tools/reach_report.py to show which anchored code the monitors' workloads
+    actually drive; off by default and never part of a verdict."""
+    global _REACH
+    out = os.environ.get("VERIF_COVER")
+    if not out or _REACH is not None or not hasattr(sys, "monitoring"):
+        return
+    import atexit
+    mon = sys.monitoring
+    tool = mon.COVERAGE_ID
+    try:
+        mon.use_tool_id(tool, "verif-reach")
+    except ValueError:
+        return
+    prefix = os.path.join(REPO, "pvl") + os.sep
+    seen = set()
+    _REACH = seen
+
+    def on_line(code, line):
+        fn = code.co_filename
+        if fn.startswith(prefix):
+            seen.add((fn[len(prefix):], line))
+        return mon.DISABLE
+
+    mon.register_callback(tool, mon.events.LINE, on_line)
+    mon.set_events(tool, mon.events.LINE)
+
+    def dump():
+        os.makedirs(out, exist_ok=True)
+        with open(os.path.join(out, f"{os.getpid()}.json"), "w") as f:
+            json.dump(sorted(seen), f)
+
+    atexit.register(dump)
 
 
 def ensure_deps():
@@ -400,7 +442,7 @@ def finish(prop, rec, *, tier_name, seed_value, rule, t0, min_nontrivial=2,
 
     # replay files for unknown classes (stale ones of this property go first)
     replay_paths = []
-    scratch = REPO != "/repo"  # self-test against a scratch copy of the repo
+    scratch = REPO != "/repo" or bool(os.environ.get("VERIF_SCRATCH"))  # scratch run: do not touch evidence/
     rdir = os.path.join(WORK, "replay-scratch") if scratch else \
         os.path.join(VERIF, "replay")
     if os.path.isdir(rdir):
